@@ -62,7 +62,7 @@ package index
 //@   pure
 //@   requires br != nil
 //@   alloc_budget 65536
-//@   ensures err == nil ==> ss != nil
+//@   ensures err == nil ==> ss != nil && fresh(ss)
 //@   ensures err != nil ==> ss == nil
 
 //@ func Snapshot.readFromVersion1
@@ -71,14 +71,20 @@ package index
 //@   requires br != nil
 //@   alloc_budget 65536
 //@   modifies i.segment, elems(i.segment)
+//@   under_construction i
+//@   ensures [appended-fresh] forall k int :: old(len(i.segment)) <= k && k < len(i.segment) ==> fresh(i.segment[k])
 //@   loop 1
 //@     invariant base(i.segment) == old(base(i.segment)) || fresh(base(i.segment))
+//@     invariant old(len(i.segment)) <= len(i.segment)
+//@     invariant forall k int :: old(len(i.segment)) <= k && k < len(i.segment) ==> fresh(i.segment[k])
 
 //@ func Snapshot.ReadFrom
 //@   props C12 C03
 //@   nopanic
 //@   alloc_budget 65536
 //@   modifies i.segment, elems(i.segment)
+//@   under_construction i
+//@   ensures [appended-fresh] forall k int :: old(len(i.segment)) <= k && k < len(i.segment) ==> fresh(i.segment[k])
 
 //@ func Directory.Load(recv, kind, id) (data, closer, err)
 //@   interface
@@ -165,6 +171,7 @@ package index
 //@   props C15 C04
 //@   guarded_by(m) refs
 //@   guarded_by(m2) fieldTFRs
+//@   immutable epoch, parent, segment, offsets
 
 //@ type closeOnLastRefCounter
 //@   props C15 C11
@@ -182,3 +189,21 @@ package index
 //@   props C15 C04
 //@   lockset
 //@   at call addRef: assert heldR[addr(s, rootLock)] || heldW[addr(s, rootLock)]
+
+// ---------------------------------------------------------------------------
+// C04: a published snapshot is immutable
+// ---------------------------------------------------------------------------
+// The fields that define what a Reader sees are written only while the object is being built by
+// the activation that allocated it (or by the decoder filling the object handed to it).
+//@ type segmentSnapshot
+//@   props C04
+//@   immutable id, segment, deleted
+
+//@ sweep immutable C04
+
+// the bitmap handed to ProcessSegmentNow is still private to the introducer that created it
+//@ func segmentMerge.ProcessSegmentNow
+//@   props C04 C06
+//@   immutchk
+//@   under_construction newSegmentDeleted
+//@   requires {C04} [bitmap created here] ownfresh(newSegmentDeleted)
